@@ -341,4 +341,128 @@ def tpcRcSrc (body : CStmt) (decorator : Stmt) (P : Env Val) (s : St Val) (old :
 def handlerSrc (handler : Stmt) (body : CStmt) (decorator : Stmt) (P : Env Val) (s : St Val) : St Val :=
   (exec P (tpcSrc body decorator P) handler { st := s }).st
 
+/-! ## C property handlers as data (`getattr_property0..3`, `setattr_property0..3`,
+`setattr_validate0..3`, `setattr_validate_property`, `_trait_set_property`)
+
+`propsrc.py` reads each handler statement by statement against the grammar
+"delete guard; build the argument tuple; call a callable stored in a field of
+one of the trait objects; fail on NULL; return" and emits what varies: which
+trait object, which field, which arguments in which order, which guards are
+present and where.  Reference-count statements carry no data. -/
+
+inductive HArg where
+  | obj | name | value | trait | traito | traitd | validated
+  deriving DecidableEq, Repr
+
+inductive HField where
+  | delegate_name | delegate_prefix | py_validate | validate | post_setattr
+  deriving DecidableEq, Repr
+
+inductive HWho where
+  | trait | traito | traitd
+  deriving DecidableEq, Repr
+
+/-- `PyObject_Call(who->field, (args…))` or `who->field(args…)` -/
+structure CallH where
+  who : HWho
+  field : HField
+  args : List HArg
+  deriving DecidableEq, Repr
+
+/-- `setattr_propertyN`. -/
+structure SetH where
+  /-- `if (value == NULL) return set_delete_property_error(obj, name);` is the first statement -/
+  deleteGuard : Bool
+  call : CallH
+  /-- `if (result == NULL) return -1;` follows the call; then `return 0` -/
+  failOnNull : Bool
+  deriving DecidableEq, Repr
+
+/-- `setattr_validate_property`. -/
+structure ValSetH where
+  deleteGuard : Bool
+  validate : CallH
+  /-- `if (validated == NULL) return -1;` between the two calls -/
+  failOnNull : Bool
+  set : CallH
+  /-- the result of the setter call is what is returned -/
+  returnsSetResult : Bool
+  deriving DecidableEq, Repr
+
+/-- What `_trait_set_property(get, get_n, set, set_n, validate, validate_n)` installs. -/
+structure InstallH where
+  /-- indices in `getattr_property_handlers[]`, `setattr_property_handlers[]` (first four),
+  `setattr_validate_handlers[]`: entry `i` is handler number … -/
+  getTable : List Nat
+  setTable : List Nat
+  validateTable : List Nat
+  /-- `trait->getattr = getattr_property_handlers[get_n]` -/
+  getIndexedBy : String
+  /-- with a validator: `setattr = setattr_validate_property`, `post_setattr = set table[…]`, `validate = validate table[…]` -/
+  validatedSetattr : String
+  validatedPostIndexedBy : String
+  validatedValidateIndexedBy : String
+  /-- without: `setattr = set table[…]` -/
+  plainSetIndexedBy : String
+  /-- the branch condition -/
+  validatedWhen : String
+  /-- `delegate_name`, `delegate_prefix`, `py_validate` := -/
+  fields : List (String × String)
+  deriving DecidableEq, Repr
+
+structure Handlers where
+  get : List CallH
+  set : List SetH
+  validate : List CallH
+  vset : ValSetH
+  install : InstallH
+
+/-- The handler installed for index `n` through a table. -/
+def viaTable {α : Type} (table : List Nat) (hs : List α) (n : Nat) : Option α :=
+  match table[n]? with
+  | some i => hs[i]?
+  | none => none
+
+/-- Run `setattr_propertyN` (data `h`) with `value` = `v` (`none`: `NULL`, a deletion);
+`valueArg` is the name the value goes by in the argument list (`value`, or
+`validated` when called from `setattr_validate_property`). -/
+def runSetH (P : Env Val) (s : St Val) (h : SetH) (v : Option Int) : Except Exc Unit × St Val :=
+  match v with
+  | none => if h.deleteGuard then (.error .traitError, s) else (.error .other, s)
+  | some x =>
+    if h.call.who = .traitd ∧ h.call.field = .delegate_prefix then
+      match P.fset with
+      | none => (.error .traitError, s)
+      | some f =>
+        match f s.heap (if h.call.args.getLast? = some .value then some x else none) with
+        | .error e => if h.failOnNull then (.error e, s) else (.ok (), s)
+        | .ok ms => (.ok (), runMuts P s ms)
+    else (.error .other, s)
+
+/-- `obj.p = x` / `del obj.p` as the installed C handlers execute it. -/
+def setSrc (H : Handlers) (P : Env Val) (s : St Val) (a : SetArg) : Except Exc Unit × St Val :=
+  let v : Option Int := match a with | .value x => some x | .delete => none
+  match P.fvalidate with
+  | none =>
+    -- `trait->setattr = setattr_property_handlers[set_n]`
+    match viaTable H.install.setTable H.set P.setN with
+    | some h => runSetH P s h v
+    | none => (.error .other, s)
+  | some fv =>
+    -- `trait->setattr = setattr_validate_property`
+    match v with
+    | none => if H.vset.deleteGuard then (.error .traitError, s) else (.error .other, s)
+    | some x =>
+      if H.vset.validate = ⟨.traitd, .validate, [.traitd, .obj, .name, .value]⟩
+          ∧ H.vset.set = ⟨.traitd, .post_setattr, [.traito, .traitd, .obj, .name, .validated]⟩
+          ∧ H.vset.returnsSetResult then
+        match fv x with
+        | .error e => if H.vset.failOnNull then (.error e, s) else (.error .other, s)
+        | .ok y =>
+          -- `post_setattr = setattr_property_handlers[set_n]`, called with `validated` as its `value`
+          match viaTable H.install.setTable H.set P.setN with
+          | some h => runSetH P s h (some y)
+          | none => (.error .other, s)
+      else (.error .other, s)
+
 end TraitsVerif.Model.PropL
